@@ -37,15 +37,12 @@ collision kinds excluded, self-named arguments allowed), `bindD env d₀` (Proof
   `bindD env d₀` to `bindD (bindEnv env cv kw) d₀`: the loop computes exactly the environment update of `condDist`.
 * `condAttr_processed_iff` — which keywords count as processed.
 
-`acond_refines_condDist` is delivered in these parts (`…_partial` in the sense of the brief: state correspondence
-proved for ALL collision-free distributions incl. shared callables; not yet composed with the branch selection).
-Full statement, still open:  for `AOK d₀`, keywords with distinct keys on which the refusal of
-`acond_refuses_nonconditioning_attribute` does not fire,
-  `ARel d₀ (acond (bindD env d₀) args kw) (condDist (toFactor d₀) env d₀.c args kw)`
-where `ARel` relates equal errors, `dist (bindD env' d₀)` with `.dist (toFactor d₀) env' c`, `lik (bindD env' d₀) x`
-with `.lik (toFactor d₀) env' x c`, and `eval name v` with `.eval (some name) v 0`.  Missing steps: `unused = []`
-iff no keyword outside `cv` (from `condAttr_processed_iff`), unreachability of the silent fall-through, and
-`avals (bindD env' d₀)` is defined when `cv = []` (value of the evaluated density).  Validated by the tie on every run.
+* `acond_refines_condDist` — **the refinement as one theorem** (third pass): for every `AOK`/`MainOK` distribution, environment,
+  positional arguments and keywords (distinct keys, refusal of `acond_refuses_nonconditioning_attribute` not firing)
+  `ARel d₀ (acond (bindD env d₀) args kw) (condDist (toFactor d₀) env d₀.c args kw)`; all branches, silent fall-through unreachable,
+  `avals` defined when no conditioning variable is left (`avals_defined`).  Corollaries `acond_error_iff`, `acond_eval_value`,
+  `acond_dist_state` transfer errors / values / conditioning variables from the abstract model (about which
+  `Props/C01.lean`, `Props/C01_full.lean` prove `condition_logd`) to attribute-level objects.
 -/
 namespace CuqiVerif.C01
 
@@ -337,6 +334,277 @@ theorem condAttr_processed_iff (kw : Kw V) (key : Name) (a : Attr V) (k : Name) 
     k ∈ (condAttr kw key a).2 ↔ (k = key ∧ k ∈ kwKeys kw) ∨ (k ∈ kwKeys kw ∧ k ∈ a.args) :=
   mem_condAttr_processed kw key a k
 
+
+/-! ### result-level refinement: `acond` vs `condDist` -/
+
+/-- `_main_parameter` is not a name of the distribution's vocabulary -/
+structure MainOK (d : ADist V K) : Prop where
+  attr : mainKey ∉ d.attrs.map (·.1)
+  cv : mainKey ∉ acondVars d.attrs
+  name : mainKey ≠ d.name
+
+lemma acondVars_nodup (d : ADist V K) (h : AOK d) : (acondVars d.attrs).Nodup := by
+  unfold acondVars
+  rw [List.nodup_append]
+  refine ⟨?_, dedupInto_nodup [] _ List.nodup_nil, ?_⟩
+  · unfold noneVars
+    exact (List.Sublist.map _ List.filter_sublist).nodup h.keys_nodup
+  · intro a ha b hb hab
+    subst hab
+    obtain ⟨kb, hkb, hargs⟩ := (mem_indirectVars _ _).1 hb
+    have := h.nocoll kb hkb a hargs (a, .none) ((mem_noneVars _ _).1 ha) rfl
+    subst this
+    simp [Attr.args] at hargs
+
+lemma reads_mem_acondVars (d₀ : ADist V K) (h : AOK d₀) (ka : Name × Attr V) (hka : ka ∈ d₀.attrs) :
+    ∀ n ∈ ka.2.reads ka.1, n ∈ acondVars d₀.attrs := by
+  obtain ⟨key, a⟩ := ka
+  intro n hn
+  unfold acondVars
+  cases a with
+  | val x => simp [Attr.reads] at hn
+  | none =>
+    simp only [Attr.reads, List.mem_singleton] at hn
+    subst hn
+    exact List.mem_append_left _ ((mem_noneVars _ _).2 hka)
+  | fn id sig b =>
+    have hb := (h.fresh _ hka id sig b rfl).1
+    subst hb
+    refine List.mem_append_right _ ((mem_indirectVars _ _).2 ⟨_, hka, ?_⟩)
+    simpa [Attr.args, Attr.reads, remArgs, kwKeys] using hn
+
+section
+variable [Add K] [Zero K]
+
+/-- correspondence of results: same exception; a distribution / likelihood in the state `bindD env' d₀`
+    with the abstract density carrying the environment `env'`; evaluated densities with the same value -/
+inductive ARel (d₀ : ADist V K) : Except Err (ARes V K) → Except Err (Dens V K) → Prop
+  | err (e : Err) : ARel d₀ (.error e) (.error e)
+  | dist (env : Name → Option V) : ARel d₀ (.ok (.dist (bindD env d₀))) (.ok (.dist (toFactor d₀) env d₀.c))
+  | lik (env : Name → Option V) (x : V) : ARel d₀ (.ok (.lik (bindD env d₀) x)) (.ok (.lik (toFactor d₀) env x d₀.c))
+  | eval (v : K) : ARel d₀ (.ok (.eval d₀.name v)) (.ok (.eval (some d₀.name) v 0))
+
+lemma atoLik_rel (d₀ : ADist V K) (h : AOK d₀) (env : Name → Option V) (x : V) :
+    ARel d₀ (atoLik (bindD env d₀) x) (.ok (toLik (toFactor d₀) env d₀.c x)) := by
+  have hfr : ∀ ka ∈ d₀.attrs, ∀ id sig b, ka.2 = .fn id sig b → b = [] :=
+    fun ka hka id sig b hb => (h.fresh ka hka id sig b hb).1
+  have hcv := acondVars_bind_eq_free d₀ h env
+  unfold atoLik toLik
+  rw [← hcv]
+  by_cases he : (acondVars (bindD env d₀).attrs).isEmpty = true
+  · rw [if_pos he, if_pos he]
+    have hnil : acondVars (bindAttrs env d₀.attrs) = [] := List.isEmpty_iff.1 he
+    obtain ⟨vs, hvs⟩ := avals_defined env d₀.attrs hfr hnil
+    have hlog : alogpdf (bindD env d₀) x = .ok (d₀.pdf vs x) := by
+      simp [alogpdf, bindD, hvs]
+    have hb : bindAttrs (envWith env d₀.name x) d₀.attrs = bindAttrs env d₀.attrs := by
+      apply bindAttrs_congr
+      intro ka hka n hn
+      have hm := reads_mem_acondVars d₀ h ka hka n hn
+      have hne : n ≠ d₀.name := fun e => h.name_ok.2 (e ▸ hm)
+      simp [envWith, hne]
+    have hf : (toFactor d₀).f (envWith env d₀.name x) = d₀.pdf vs x := by
+      simp [toFactor, envWith, hb, hvs]
+    rw [hlog]
+    show ARel d₀ (.ok (.eval d₀.name (d₀.pdf vs x + d₀.c)))
+      (.ok (.eval (some d₀.name) ((toFactor d₀).f (envWith env d₀.name x) + d₀.c) 0))
+    rw [hf]
+    exact ARel.eval _
+  · rw [if_neg he, if_neg he]
+    exact ARel.lik env x
+
+end
+
+section
+variable [Add K] [Zero K]
+
+/-- **`Distribution._condition` at attribute level refines the abstract `condDist`.**  For every
+    collision-free fresh distribution `d₀` (`AOK`, `MainOK`), every environment `env` already given
+    to it, all positional arguments and all keywords with distinct keys on which the code's refusal
+    "mutable variable … is not a conditioning variable" does not fire, the attribute-level call on
+    `bindD env d₀` and the abstract call on `.dist (toFactor d₀) env c` return corresponding results:
+    the same exception class, or a distribution / likelihood whose mutable variables are in the
+    state `bindD env' d₀` for the *same* new environment `env'` (and the same data), or an evaluated
+    density with the same value.  All branches of the code are covered: the parser, the loop,
+    `_main_parameter`, unused keywords → own name, the keyword error check (its silent
+    fall-through is unreachable).  Since the result is again of the form `bindD env' d₀`, the
+    theorem applies to every further call: any history of conditioning calls at attribute level is
+    simulated step by step by the abstract model, about which `Props/C01*.lean` prove `condition_logd`. -/
+theorem acond_refines_condDist (d₀ : ADist V K) (h : AOK d₀) (hm : MainOK d₀) (env : Name → Option V)
+    (args : List V) (kw : Kw V) (hkw : (kwKeys kw).Nodup)
+    (hmut : ∀ k ∈ kwKeys kw, k ∈ d₀.attrs.map (·.1) → k ∈ acondVars (bindD env d₀).attrs) :
+    ARel d₀ (acond (bindD env d₀) args kw) (condDist (toFactor d₀) env d₀.c args kw) := by
+  have hfr : ∀ ka ∈ d₀.attrs, ∀ id sig b, ka.2 = .fn id sig b → b = [] :=
+    fun ka hka id sig b hb => (h.fresh ka hka id sig b hb).1
+  have hcvfree := acondVars_bind_eq_free d₀ h env
+  have hcvmem : ∀ n, n ∈ acondVars (bindAttrs env d₀.attrs) ↔ n ∈ acondVars d₀.attrs ∧ env n = none := by
+    intro n
+    rw [acondVars_bind env d₀.attrs hfr, List.mem_filter]
+    cases env n <;> simp
+  have hcvnd : (acondVars (bindAttrs env d₀.attrs) ++ [mainKey]).Nodup := by
+    rw [acondVars_bind env d₀.attrs hfr, List.nodup_append]
+    refine ⟨(acondVars_nodup d₀ h).filter _, by simp, ?_⟩
+    intro a ha b hb
+    simp only [List.mem_singleton] at hb
+    subst hb
+    rintro rfl
+    exact hm.cv (List.mem_filter.1 ha).1
+  have hparse : aparseDist (acondVars (bindD env d₀).attrs) args kw = parseDist (free (toFactor d₀) env) args kw := by
+    rw [← hcvfree]; exact aparseDist_eq_parseDist _ hcvnd _ _
+  unfold acond condDist
+  simp only [hparse]
+  cases hp : parseDist (free (toFactor d₀) env) args kw with
+  | error e => exact ARel.err e
+  | ok kw' =>
+    simp only []
+    obtain ⟨hkw'eq, hposdis⟩ := parseDist_ok _ _ _ _ hp
+    have hcv : free (toFactor d₀) env = acondVars (bindAttrs env d₀.attrs) := hcvfree.symm
+    have hattrs : (bindD env d₀).attrs = bindAttrs env d₀.attrs := rfl
+    have hmv : List.map (fun x => x.1) (bindAttrs env d₀.attrs) = d₀.attrs.map (·.1) := by
+      simp [bindAttrs, List.map_map, Function.comp]
+    have e1 : (bindD env d₀).name = d₀.name := rfl
+    have e2 : (toFactor d₀).name = d₀.name := rfl
+    have e3 : (bindD env d₀).pdf = d₀.pdf := rfl
+    have e4 : (bindD env d₀).c = d₀.c := rfl
+    simp only [e1, e2, e3, e4, hattrs, hcv]
+    have hkw'nd : (kwKeys kw').Nodup := by
+      rw [hkw'eq, kwKeys_append, List.nodup_append]
+      refine ⟨hkw, kwKeys_zip_nodup _ _ (hcv ▸ hcvnd), ?_⟩
+      intro a ha b hb hab
+      subst hab
+      exact hposdis a hb ha
+    have hmut' : ∀ k ∈ kwKeys kw', k ∈ d₀.attrs.map (·.1) → k ∈ acondVars (bindAttrs env d₀.attrs) := by
+      intro k hk hkmv
+      rw [hkw'eq, kwKeys_append] at hk
+      rcases List.mem_append.1 hk with hk | hk
+      · exact hmut k hk hkmv
+      · have := kwKeys_zip_subset _ _ k hk
+        rw [hcv] at this
+        rcases List.mem_append.1 this with h1 | h1
+        · exact h1
+        · simp only [List.mem_singleton] at h1
+          subst h1
+          exact absurd hkmv hm.attr
+    have hnew : List.map (fun kr => (kr.1, kr.2.1)) (List.map (fun ka => (ka.1, condAttr kw' ka.1 ka.2)) (bindAttrs env d₀.attrs))
+        = bindAttrs (bindEnv env (acondVars (bindAttrs env d₀.attrs)) kw') d₀.attrs := by
+      rw [List.map_map]
+      exact condAttrs_refine_bind d₀ h env kw' hkw'nd hmut'
+    have hproc : ∀ k ∈ kwKeys kw',
+        (k ∈ List.flatMap (fun kr => kr.2.2) (List.map (fun ka => (ka.1, condAttr kw' ka.1 ka.2)) (bindAttrs env d₀.attrs))
+          ↔ k ∈ acondVars (bindAttrs env d₀.attrs)) :=
+      fun k hk => processed_iff (bindAttrs env d₀.attrs) kw' k hk (fun hk2 => hmut' k hk (hmv ▸ hk2))
+    have hchk : ¬ ((kwKeys kw').any fun k =>
+        (List.map (fun x => x.1) (bindAttrs env d₀.attrs)).contains k && !(acondVars (bindAttrs env d₀.attrs)).contains k) = true := by
+      intro hany
+      obtain ⟨k, hk, hc⟩ := List.any_eq_true.1 hany
+      simp only [Bool.and_eq_true, Bool.not_eq_eq_eq_not, Bool.not_true, List.contains_eq_mem, decide_eq_true_eq,
+        decide_eq_false_iff_not] at hc
+      exact hc.2 (hmut' k hk (hmv ▸ hc.1))
+    have hempty : (List.filter (fun k => !(List.flatMap (fun kr => kr.2.2)
+          (List.map (fun ka => (ka.1, condAttr kw' ka.1 ka.2)) (bindAttrs env d₀.attrs))).contains k) (kwKeys kw')).isEmpty
+        = (List.filter (fun kv => !(acondVars (bindAttrs env d₀.attrs)).contains kv.1) kw').isEmpty := by
+      rw [Bool.eq_iff_iff, List.isEmpty_iff, List.isEmpty_iff, List.filter_eq_nil_iff, List.filter_eq_nil_iff]
+      constructor
+      · intro hh kv hkv
+        have hk : kv.1 ∈ kwKeys kw' := List.mem_map.2 ⟨kv, hkv, rfl⟩
+        have := hh kv.1 hk
+        simp only [Bool.not_eq_eq_eq_not, Bool.not_true, List.contains_eq_mem, decide_eq_false_iff_not, not_not] at this ⊢
+        exact (hproc _ hk).1 this
+      · intro hh k hk
+        obtain ⟨kv, hkv, rfl⟩ := List.mem_map.1 hk
+        have := hh kv hkv
+        simp only [Bool.not_eq_eq_eq_not, Bool.not_true, List.contains_eq_mem, decide_eq_false_iff_not, not_not] at this ⊢
+        exact (hproc _ hk).2 this
+    rw [if_neg hchk, hnew, hempty]
+    have hstruct : ∀ env', ({ name := d₀.name, attrs := bindAttrs env' d₀.attrs, pdf := d₀.pdf, c := d₀.c } : ADist V K) = bindD env' d₀ :=
+      fun _ => rfl
+    simp only [hstruct]
+    cases hmk : kwGet kw' mainKey with
+    | some x => exact atoLik_rel d₀ h _ x
+    | none =>
+      simp only []
+      by_cases hE : (List.filter (fun kv => !(acondVars (bindAttrs env d₀.attrs)).contains kv.1) kw').isEmpty = true
+      · rw [if_pos hE, if_pos hE]
+        exact ARel.dist _
+      · rw [if_neg hE, if_neg hE]
+        cases hnm : kwGet kw' d₀.name with
+        | some x => exact atoLik_rel d₀ h _ x
+        | none =>
+          simp only []
+          have hany : ((kwKeys kw').any fun k =>
+              !(List.map (fun x => x.1) (bindAttrs env d₀.attrs) ++ acondVars (bindAttrs env d₀.attrs) ++ [d₀.name]).contains k) = true := by
+            have hne : List.filter (fun kv => !(acondVars (bindAttrs env d₀.attrs)).contains kv.1) kw' ≠ [] := by
+              intro hnil; exact hE (by rw [hnil]; rfl)
+            obtain ⟨kv, hkv⟩ := List.exists_mem_of_ne_nil _ hne
+            obtain ⟨hkvm, hkvc⟩ := List.mem_filter.1 hkv
+            have hk : kv.1 ∈ kwKeys kw' := List.mem_map.2 ⟨kv, hkvm, rfl⟩
+            have hncv : kv.1 ∉ acondVars (bindAttrs env d₀.attrs) := by simpa using hkvc
+            have hnmv : kv.1 ∉ List.map (fun x => x.1) (bindAttrs env d₀.attrs) := fun hin => hncv (hmut' _ hk (hmv ▸ hin))
+            have hnname : kv.1 ≠ d₀.name := fun e => (kwGet_eq_none_iff kw' d₀.name).1 hnm (e ▸ hk)
+            apply List.any_eq_true.2
+            refine ⟨kv.1, hk, ?_⟩
+            simp [hncv, hnmv, hnname]
+          rw [if_pos hany]
+          exact ARel.err _
+
+/-- `y ~ Gaussian(mean=None, cov=lambda s, t: …)` and `x ~ Normal(0, std=lambda std: …)` satisfy the side conditions -/
+def okD : ADist Nat Nat :=
+  { name := "y", attrs := [("mean", .none), ("cov", .fn 0 ["s", "t"] []), ("std", .fn 1 ["std"] [])], pdf := fun _ _ => 0, c := 0 }
+
+example : AOK okD ∧ MainOK okD := by
+  refine ⟨⟨by decide, ?_, ?_, by decide⟩, ⟨by decide, by decide, by decide⟩⟩
+  · intro ka hka id sig b hb
+    simp only [okD, List.mem_cons, List.not_mem_nil, or_false] at hka
+    rcases hka with rfl | rfl | rfl <;> simp at hb
+    · obtain ⟨_, rfl, rfl⟩ := hb; exact ⟨rfl, by decide⟩
+    · obtain ⟨_, rfl, rfl⟩ := hb; exact ⟨rfl, by decide⟩
+  · intro ka hka n hn kb hkb hnk
+    simp only [okD, List.mem_cons, List.not_mem_nil, or_false] at hka hkb
+    rcases hka with rfl | rfl | rfl <;> rcases hkb with rfl | rfl | rfl <;>
+      simp [Attr.args, remArgs, kwKeys] at hn hnk ⊢ <;> (try subst hnk) <;> simp_all
+
+
+/-- **Transfer, errors**: the attribute-level call raises exactly when the abstract one does, with the same class. -/
+theorem acond_error_iff (d₀ : ADist V K) (h : AOK d₀) (hm : MainOK d₀) (env : Name → Option V)
+    (args : List V) (kw : Kw V) (hkw : (kwKeys kw).Nodup)
+    (hmut : ∀ k ∈ kwKeys kw, k ∈ d₀.attrs.map (·.1) → k ∈ acondVars (bindD env d₀).attrs) (e : Err) :
+    acond (bindD env d₀) args kw = .error e ↔ condDist (toFactor d₀) env d₀.c args kw = .error e := by
+  have hr := acond_refines_condDist d₀ h hm env args kw hkw hmut
+  generalize acond (bindD env d₀) args kw = x at hr
+  generalize condDist (toFactor d₀) env d₀.c args kw = y at hr
+  cases hr <;> simp
+
+/-- **Transfer, values**: when the abstract call returns an evaluated density (the variable and all
+    its conditioning variables fixed), the attribute-level call returns an evaluated density with the
+    same value — the number that `condition_logd` of `Props/C01_full.lean` sums into the joint log-density. -/
+theorem acond_eval_value (d₀ : ADist V K) (h : AOK d₀) (hm : MainOK d₀) (env : Name → Option V)
+    (args : List V) (kw : Kw V) (hkw : (kwKeys kw).Nodup)
+    (hmut : ∀ k ∈ kwKeys kw, k ∈ d₀.attrs.map (·.1) → k ∈ acondVars (bindD env d₀).attrs)
+    (n : Option Name) (v c' : K) (habs : condDist (toFactor d₀) env d₀.c args kw = .ok (.eval n v c')) :
+    acond (bindD env d₀) args kw = .ok (.eval d₀.name v) := by
+  have hr := acond_refines_condDist d₀ h hm env args kw hkw hmut
+  rw [habs] at hr
+  generalize acond (bindD env d₀) args kw = x at hr
+  cases hr
+  rfl
+
+/-- **Transfer, conditioning variables**: when the abstract call returns a distribution with
+    environment `env'`, the attribute-level call returns the distribution `bindD env' d₀`, whose
+    `get_conditioning_variables()` are `free (toFactor d₀) env'`. -/
+theorem acond_dist_state (d₀ : ADist V K) (h : AOK d₀) (hm : MainOK d₀) (env : Name → Option V)
+    (args : List V) (kw : Kw V) (hkw : (kwKeys kw).Nodup)
+    (hmut : ∀ k ∈ kwKeys kw, k ∈ d₀.attrs.map (·.1) → k ∈ acondVars (bindD env d₀).attrs)
+    (F : Factor V K) (env' : Name → Option V) (c' : K)
+    (habs : condDist (toFactor d₀) env d₀.c args kw = .ok (.dist F env' c')) :
+    acond (bindD env d₀) args kw = .ok (.dist (bindD env' d₀)) ∧
+      acondVars (bindD env' d₀).attrs = free (toFactor d₀) env' := by
+  have hr := acond_refines_condDist d₀ h hm env args kw hkw hmut
+  rw [habs] at hr
+  generalize acond (bindD env d₀) args kw = x at hr
+  cases hr
+  exact ⟨rfl, acondVars_bind_eq_free d₀ h env'⟩
+
+end
 
 /-! ## name collisions -/
 
